@@ -80,19 +80,18 @@ func getNotification(eventID string) (n *Notification, ok bool) {
 // Query returns a an iterator for the supplied query.
 func (s *StorageInterface) Query(q *query.Query, local, internal bool) (*iterator.Iterator, error) {
 	it := iterator.New()
-	go s.processQuery(q, it)
-	// TODO: check local and internal
+	go s.processQuery(q, it, local, internal)
 
 	return it, nil
 }
 
-func (s *StorageInterface) processQuery(q *query.Query, it *iterator.Iterator) {
+func (s *StorageInterface) processQuery(q *query.Query, it *iterator.Iterator, local, internal bool) {
 	// Get a copy of the notification map.
 	notsCopy := getNotsCopy()
 
 	// send all notifications
 	for _, n := range notsCopy {
-		if inQuery(n, q) {
+		if inQuery(n, q, local, internal) {
 			select {
 			case it.Next <- n:
 			case <-it.Done:
@@ -105,12 +104,14 @@ func (s *StorageInterface) processQuery(q *query.Query, it *iterator.Iterator) {
 	it.Finish(nil)
 }
 
-func inQuery(n *Notification, q *query.Query) bool {
+func inQuery(n *Notification, q *query.Query, local, internal bool) bool {
 	n.lock.Lock()
 	defer n.lock.Unlock()
 
 	switch {
 	case n.Meta().IsDeleted():
+		return false
+	case !n.Meta().CheckPermission(local, internal):
 		return false
 	case !q.MatchesKey(n.DatabaseKey()):
 		return false
